@@ -289,6 +289,45 @@ func runC29(c *an.Ctx) {
 				}
 			}
 		})
+		if !okI {
+			// the same step as increment-and-wrap: index++ unconditionally, then index = 0 exactly when it
+			// reached the ring size
+			var inc, zero []*ssa.Store
+			other := false
+			for _, st := range an.StoresTo(lw, ".index") {
+				if an.Path(st.Addr) != "&$0.index" {
+					continue
+				}
+				switch an.Path(st.Val) {
+				case "($0.index+c:1)":
+					inc = append(inc, st)
+				case "c:0":
+					zero = append(zero, st)
+				default:
+					other = true
+				}
+			}
+			if !other && len(inc) == 1 && len(zero) == 1 && an.Dominates(inc[0], zero[0]) {
+				base := map[string]bool{}
+				for _, f := range necessaryFacts(lw, inc[0]) {
+					base[f.String()] = true
+				}
+				n, wrap := 0, false
+				for _, f := range necessaryFacts(lw, zero[0]) {
+					if base[f.String()] {
+						continue
+					}
+					n++
+					for _, g := range []an.Cmp{f, f.Swap()} {
+						if g.L == "$0.index" && g.R == "len($0.logs)" && (g.Op == "==" || g.Op == ">=") {
+							wrap = true
+						}
+					}
+				}
+				// and nothing but that test decides: the wrap is taken whenever the size is reached
+				okI = wrap && n == 1
+			}
+		}
 		c.Add(okS, "R2", "Write:stores-at-index", lw, "a new line is stored at the ring's current index", "store path")
 		c.Add(okI, "R2", "Write:advances-index", lw, "the index advances by one modulo the ring size", "store value path")
 		c.Add(okN, "R2", "Write:notifies-handlers", lw, "every registered handler receives the line under the mutex", "invoke enumeration + lockset")
